@@ -141,6 +141,8 @@ def keep(d, v, pid, needs, all_props=False, as_v=None, rnd=1):
 
 if __name__ == "__main__" and sys.argv[1] == "keep":
     sys.exit(keep(sys.argv[2], sys.argv[3], sys.argv[4], sys.argv[5]))
+if __name__ == "__main__" and sys.argv[1] == "keep9":     # round 9 (ten properties): variants a, b stored as q, r
+    sys.exit(keep(sys.argv[2], sys.argv[3], sys.argv[4], sys.argv[5], as_v={"a": "q", "b": "r"}[sys.argv[3]], rnd=9))
 if __name__ == "__main__" and sys.argv[1] == "keep8":     # round 8: variants a, b stored as o, p
     sys.exit(keep(sys.argv[2], sys.argv[3], sys.argv[4], sys.argv[5], as_v={"a": "o", "b": "p"}[sys.argv[3]], rnd=8))
 if __name__ == "__main__" and sys.argv[1] == "keep7":     # round 7: variants a, b stored as m, n
